@@ -573,6 +573,8 @@ def _never_sentinel_when_open(prog: Program, fn: FuncInfo, MIN: int, MAX: int) -
             sel_names.add(None)
         elif at is not None and at[0] == "lv" and at[2] == loop.loop_id:
             sel_names.add(at[1])
+        elif at is not None and at[0] == "init" and at[1] == dd and v == Aff.atom(at):
+            continue  # the scan was left (break) with an element of the decision domains selected: not the sentinel
         else:
             return False, f"returns {show_val(v)}"
     # first-iteration-state analysis: body run from the pre-loop values with 'this domain is open'
